@@ -64,7 +64,7 @@ def gen_spec(rng, kind=None, maxn=4, via=None):
     nz = int(rng.integers(1, maxn + 1))
     ny = int(rng.integers(1, maxn + 2))
     nx = int(rng.integers(1, maxn + 2))
-    nv = int(rng.integers(1, 4))
+    nv = int(rng.integers(1, 5))
     sdate = int(rng.choice(SDATES)) if rng.random() < 0.7 else \
         int(rng.integers(1950, 2090)) * 1000 + int(rng.integers(1, 366))
     stime = int(rng.choice([0, 0, 120000, 230000, 233000, 235959, 60000,
